@@ -22,6 +22,8 @@ def scenes(tier):
     out.append(("F1F2", [fixed("a", 1), fixed("b", 2)] + W + [req("a", "w"), req("b", "w")], "w"))
     out.append(("F2V", [fixed("a", 2), var("b", min_duration=1, max_duration=3)] + W + [req("a", "w"), req("b", "w")], "w"))
     out.append(("F1oF2", [fixed("a", 1, optional=True), fixed("b", 2)] + W + [req("a", "w"), req("b", "w")], "w"))
+    # two variable-duration tasks on one worker: what one task crosses must not lengthen the other
+    out.append(("VV", [var("a", min_duration=1, max_duration=3), var("b", min_duration=1, max_duration=2)] + W + [req("a", "w"), req("b", "w")], "w"))
     out.append(("sel", [fixed("a", 2), fixed("b", 1), worker("w"), worker("v"), select("s", ["w", "v"]), req("a", "s"), req("b", "w")], "w"))
     if tier in ("thorough", "deep"):
         out.append(("F1F1F2", [fixed("a", 1), fixed("b", 1), fixed("c", 2)] + W + [req(i, "w") for i in "abc"], "w"))
@@ -137,11 +139,12 @@ def jobs(tier):
            ("1V2", [var("a", min_duration=1, max_duration=2), worker("w"), req("a", "w")])]
     psc.append(("cF2", [fixed("a", 2), fixed("b", 1), cumul("w", 2), req("a", "w"), req("b", "w")]))
     psc.append(("sel", [fixed("a", 2), worker("w"), worker("v"), select("s", ["w", "v"]), req("a", "s")]))
+    psc.append(("VV", [var("a", min_duration=1, max_duration=3), var("b", min_duration=1, max_duration=2), worker("w"), req("a", "w"), req("b", "w")]))
     if tier in ("thorough", "deep"):
         psc.append(("F1F2", [fixed("a", 1), fixed("b", 2), worker("w"), req("a", "w"), req("b", "w")]))
     for (slab, sdecls) in psc:
         for pi, (clab, cdecls) in enumerate(periodic(Hp, tier)):
-            if tier == "quick" and slab in ("cF2", "sel") and pi % 3:
+            if tier == "quick" and slab in ("cF2", "sel", "VV") and pi % 3:
                 continue
             out.append({"program": prog(Hp, sdecls + cdecls), "families": fam, "family": clab})
     for (clab, decls) in same_distinct(tier):
@@ -157,4 +160,5 @@ def main(tier):
             js.append({"program": p_, "families": ["task", "resource", "constraint"], "family": "interaction:" + lab.split("/")[2]})
     if lvl == "deep":
         js = common.widen(js, by=(1, 2))
-    return common.run_space_check("C04", tier, js, RULE, ASSUME, budget_s=110 if tier == "quick" else 1500)
+    js += common.staged(js, stride=5 if tier == "quick" else 2, kinds=("solve", "init"))
+    return common.run_space_check("C04", tier, js, RULE, ASSUME, budget_s=480 if tier == "quick" else 3000)
